@@ -73,6 +73,8 @@ func (p *service) processor() {
 			}
 		}
 
+		verifEvent("proc.handled", p, int(mtype))
+
 		// 7. We should commit the bytes in the buffer so we can move on
 		_, err = p.in.ReadCommit(total)
 		if err != nil {
@@ -289,6 +291,8 @@ func (p *service) processPublish(msg *message.PublishMessage) error {
 
 // For SUBSCRIBE message, we should add subscriber, then send back SUBACK
 func (p *service) processSubscribe(msg *message.SubscribeMessage) error {
+	verifMark(verifMarkLookupBegin, p)
+	defer verifMark(verifMarkLookupEnd, p)
 	resp := message.NewSubackMessage()
 	resp.SetPacketID(msg.PacketID())
 
@@ -374,11 +378,14 @@ func (p *service) processUnsubscribe(msg *message.UnsubscribeMessage) error {
 func (p *service) onPublish(msg *message.PublishMessage) error {
 	if msg.Retain() {
 		// Retain makes a copy of msg.
+		verifMark(verifMarkRetainBegin, p)
 		if err := p.topicsMgr.Retain(msg); err != nil {
 			log.Warningf("(%s) Un-/Retaining of message failed: %v", p.cid(), err)
 		}
+		verifMark(verifMarkRetainEnd, p)
 	}
 
+	verifMark(verifMarkSubscribers, p)
 	err := p.topicsMgr.Subscribers(msg.Topic(), msg.QoS(), &p.subs, &p.qoss)
 	if err != nil {
 		log.Errorf("(%s) Error retrieving subscribers list: %v", p.cid(), err)
